@@ -492,11 +492,15 @@ func c08Attachment(ck *c08Checker) int64 {
 		c08Pool("pa", map[string]string{"grp": "0"}, "10.0.1.0/24"),
 		c08Pool("pb", map[string]string{"grp": "1"}, "10.0.2.0/24", "fc00:2::/64"),
 		c08Pool("pc", map[string]string{"grp": "0", "x": "y"}, "10.0.3.10-10.0.3.20"),
+		c08Pool("pd", nil, "10.0.4.0/28"), // no labels at all
 	}
-	nodes := []corev1.Node{c08Node("n0", map[string]string{"rack": "0"}), c08Node("n1", map[string]string{"rack": "1"}), c08Node("n2", map[string]string{"rack": "0", "z": "1"})}
+	nodes := []corev1.Node{c08Node("n0", map[string]string{"rack": "0"}), c08Node("n1", map[string]string{"rack": "1"}), c08Node("n2", map[string]string{"rack": "0", "z": "1"}), c08Node("n3", nil)}
 	named := subsets([]string{"pa", "pb", "pc", "missing"}, 2)
-	psel := subsets([]metav1.LabelSelector{lsel("grp", "0"), lsel("grp", "1"), lsel("grp", "none")}, 2)
-	nsel := subsets([]metav1.LabelSelector{lsel("rack", "0"), lsel("rack", "1"), lsel("rack", "none"), lsel("z", "1")}, 2)
+	psel := subsets([]metav1.LabelSelector{lsel("grp", "0"), lsel("grp", "1"), lsel("grp", "none"),
+		lexp("grp", metav1.LabelSelectorOpNotIn, "0"), lexp("grp", metav1.LabelSelectorOpDoesNotExist), lexp("x", metav1.LabelSelectorOpExists),
+		lexp("grp", metav1.LabelSelectorOpIn, "1", "2"), {}}, 2)
+	nsel := subsets([]metav1.LabelSelector{lsel("rack", "0"), lsel("rack", "1"), lsel("rack", "none"), lsel("z", "1"),
+		lexp("rack", metav1.LabelSelectorOpNotIn, "0"), lexp("rack", metav1.LabelSelectorOpDoesNotExist), {}}, 2)
 	var n int64
 	for _, nm := range named {
 		for _, ps := range psel {
@@ -524,12 +528,34 @@ func c08Attachment(ck *c08Checker) int64 {
 	return n
 }
 
+// matchSel: reference evaluation of a list of label selectors (any of them) on a label set: matchLabels and
+// matchExpressions (In, NotIn, Exists, DoesNotExist) all have to hold; the empty selector selects everything;
+// NotIn and DoesNotExist hold for an object without the label (Kubernetes label-selector semantics).
 func matchSel(sels []metav1.LabelSelector, lbl map[string]string) bool {
 	for _, s := range sels {
 		ok := true
 		for k, v := range s.MatchLabels {
-			if lbl[k] != v {
+			if got, has := lbl[k]; !has || got != v {
 				ok = false
+			}
+		}
+		for _, e := range s.MatchExpressions {
+			got, has := lbl[e.Key]
+			in := false
+			for _, v := range e.Values {
+				if has && v == got {
+					in = true
+				}
+			}
+			switch e.Operator {
+			case metav1.LabelSelectorOpIn:
+				ok = ok && in
+			case metav1.LabelSelectorOpNotIn:
+				ok = ok && !in
+			case metav1.LabelSelectorOpExists:
+				ok = ok && has
+			case metav1.LabelSelectorOpDoesNotExist:
+				ok = ok && !has
 			}
 		}
 		if ok {
@@ -537,6 +563,10 @@ func matchSel(sels []metav1.LabelSelector, lbl map[string]string) bool {
 		}
 	}
 	return false
+}
+
+func lexp(k string, op metav1.LabelSelectorOperator, vals ...string) metav1.LabelSelector {
+	return metav1.LabelSelector{MatchExpressions: []metav1.LabelSelectorRequirement{{Key: k, Operator: op, Values: vals}}}
 }
 
 func c08CheckAttachment(ck *c08Checker, c c08Case) {
